@@ -9,6 +9,11 @@
 (*   Inv.Parse.exact      a literal with <= 18 fractional and <= 78        *)
 (*                        integer digits parses to exactly the integer it  *)
 (*                        denotes (plain literals: digits[.digits])        *)
+(*   Inv.Parse.exact:<class> / Inv.Parse.rejected:<class> /                *)
+(*   Inv.Parse.nondecimal-accepted:<class>   strings offered as they are   *)
+(*                        (zero-padded, Go/C literal syntaxes, exponents,  *)
+(*                        signs, blanks, words): the exact decimal value   *)
+(*                        or a rejection, never another number             *)
 (*   Inv.RoundTrip        StrToBigInt(BigIntToStr(n)) = n                  *)
 (*   Inv.Rescale.identity rescaling at 18 decimals is the identity         *)
 (*   Inv.EthValue         the value of a wrapped transaction is unchanged  *)
@@ -77,8 +82,23 @@ JudgeEthValue(e) ==
    ELSE Tag(e.ok /\ Coherent(e.out) /\ NumOf(e.out) = n, "Inv.EthValue") \o
         Tag(e.s = Render(FormatAmount(n)), "format-text"))
 
+(* a string offered as it is (codes: its code points).  Either it is read as the exact decimal
+   value it denotes (leading zeros insignificant, an exponent shifts the point) or it is rejected:
+   never another number.  A plain decimal string (digits[.digits], optional "-") must be accepted. *)
+JudgeParseRaw(e) ==
+  LET lit == ReadLiteral(e.codes)
+      plain == lit.ok /\ ~lit.plus /\ lit.int # <<>> /\ (lit.dot => lit.frac # <<>>) /\ ~lit.hasExp
+  IN  Tag(~e.panic, "Inv.Total.panic") \o
+      (IF e.panic THEN <<>>
+       ELSE IF ~lit.ok THEN Tag(~e.ok, "Inv.Parse.nondecimal-accepted:" \o e.cls)
+       ELSE LET dn == Denoted(lit) IN
+            IF ~dn.inScope THEN <<>>
+            ELSE IF ~e.ok THEN (IF plain THEN <<"Inv.Parse.rejected:" \o e.cls>> ELSE <<>>)
+            ELSE Tag(Coherent(e.out), "Proj.out") \o Tag(NumOf(e.out) = dn.n, "Inv.Parse.exact:" \o e.cls))
+
 Judge(e) ==
   CASE e.event = "Parse" -> JudgeParse(e)
+    [] e.event = "ParseRaw" -> JudgeParseRaw(e)
     [] e.event = "Format" -> JudgeFormat(e)
     [] e.event = "RoundTrip" -> JudgeRoundTrip(e)
     [] e.event = "Rescale" -> JudgeRescale(e)
